@@ -1,4 +1,4 @@
-SPECIFICATION Spec
+SPECIFICATION SpecH
 CONSTANTS
   Names = {1, 2}
   Types = {"int", "float", "str"}
@@ -6,5 +6,7 @@ CONSTANTS
   MaxSize = 2
   Ext = {"alias", "protected"}
   RangeN = {}
-INVARIANTS UniqueNames LastAgrees NoneNotQueried
-PROPERTIES QueryOnlyByExactRead QueryUntilReset
+  K = 3
+INVARIANTS UniqueNames LastAgrees NoneNotQueried AgreesWithHistory
+CONSTRAINT HistBound
+VIEW View
